@@ -1,10 +1,71 @@
 /-
-  TwProofs.C19 — property theorems (see DESIGN.md, section 6).
+  TwProofs.C19 — token positions are exact, ordered and tile the source.
+
+  Model: `TwModel.Lexer` (transcription of lexer/lexer.go).  Statement-level definitions:
+  `lineOf` / `colOf` / `posOf` (the position function), `Spans`, `Covers`, `Tiled`
+  (TwProofs/Lemmas/LexPos.lean, LexSpan.lean).
 -/
-import TwModel
-import TwSpec
+import TwProofs.Lemmas.LexSpan
 
 namespace Tw.C19
-open Tw
+open Tw Tw.Lx
+
+/-- `readChar` keeps line / column equal to the position function, and remembers the position
+    of the byte it leaves -/
+theorem readChar_position (s : Lx) (h : PosInv s) :
+    PosInv (readChar s) ∧
+    (s.rest ≠ [] → (readChar s).prevLine = lineOf s.pre ∧ (readChar s).prevCol = colOf s.pre) :=
+  posInv_readChar s h
+
+/-- every token returned by a `NextToken` body (after `skipWhitespace`) covers `n ≥ 1` of the
+    remaining bytes; its start is the position of the first, its end the position of the last of
+    them; the state it leaves agrees with the position function again.  For every token kind:
+    text, braces, directives, strings (also unterminated ones, which run to the end), numbers,
+    identifiers, operators, ILLEGAL -/
+theorem token_span (s : Lx) (hinv : PosInv s) (hne : s.rest ≠ []) (t : Token) (h : (stepAt s).1 = .tok t) :
+    ∃ n, Spans s t (stepAt s).2 n :=
+  stepAt_spans s hinv hne t h
+
+/-- the token list of a whole input: source order, no overlap, exact positions, and the EOF
+    token at the position just past the last byte -/
+theorem tokens_tile_source (inp : Bytes) (r : LexResult) (h : tokenize inp = some r) : Tiled inp 0 r.toks :=
+  tokenize_tiled inp r h
+
+/-- the ILLEGAL branch of `directiveToken` (which would emit a token that does not start where
+    the directive starts) is unreachable -/
+theorem directive_always_found (s : Lx) (h : (isDirectiveToken s).1 = true) : (directiveDesc s).ty ≠ .ILLEGAL :=
+  directive_found s h
+
+/-- lexicographic order on positions -/
+def posLt (p q : Nat × Nat) : Prop := p.1 < q.1 ∨ (p.1 = q.1 ∧ p.2 < q.2)
+
+theorem lineOf_take_mono (inp : Bytes) (i j : Nat) (h : i ≤ j) : lineOf (inp.take i).reverse ≤ lineOf (inp.take j).reverse := by
+  unfold lineOf
+  rw [List.count_reverse, List.count_reverse]
+  obtain ⟨k, rfl⟩ : ∃ k, j = i + k := ⟨j - i, by omega⟩
+  rw [List.take_add]
+  simp [List.count_append]
+
+/-- the position function is strictly increasing in the offset: a later byte has a later
+    (line, column).  Together with `tokens_tile_source` this gives: a cursor position lies in the
+    range of at most one token, the one covering that byte. -/
+theorem posOf_strict_mono (inp : Bytes) (i : Nat) (h : i + 1 ≤ inp.length) : posLt (posOf inp i) (posOf inp (i + 1)) := by
+  unfold posLt posOf
+  have hsplit : inp.take (i + 1) = inp.take i ++ [inp[i]'(by omega)] := by
+    rw [List.take_succ]; simp [List.getElem?_eq_getElem (by omega : i < inp.length)]
+  rw [hsplit]
+  simp only [List.reverse_append, List.reverse_cons, List.reverse_nil, List.nil_append, List.singleton_append]
+  by_cases hlf : inp[i]'(by omega) = 10
+  · left; rw [hlf]; simp
+  · right
+    exact ⟨(lineOf_cons_ne _ _ hlf).symm, by rw [colOf_cons_ne _ _ hlf]; omega⟩
+
+/-! non-vacuity: a concrete input with multi-line text, a string with a newline, a comment -/
+
+example : (tokenize (b "a\n{{ \"x\ny\" }}{{-- c --}}z")).isSome = true := by decide
+
+example : ((tokenize (b "ab\n{{ x }}")).map fun r => r.toks.map fun t => (t.ty, t.pos.startLine, t.pos.startCol, t.pos.endLine, t.pos.endCol)) =
+    some [(.HTML, 0, 0, 0, 2), (.LBRACES, 1, 0, 1, 1), (.IDENT, 1, 3, 1, 3), (.RBRACES, 1, 5, 1, 6), (.EOF, 1, 7, 1, 7)] := by
+  decide
 
 end Tw.C19
